@@ -91,6 +91,9 @@ def check_roundtrip(case: Dict[str, Any]) -> Tuple[List[Tuple[str, str]], Dict[s
         out.extend(_cmp('own reader', want, got))
         if msgs:
             out.append(('own-reader-complains', 'reading pydoctor\'s own inventory logs %s' % msgs[:3]))
+        # where the entry points is where the object is documented, judged from the pages that were written (not from
+        # Documentable.url): a page whose <title> is the object's qualified name, or an anchor named by the qualified name
+        out.extend(_check_locations(r.out, got))
         # raw payload: each name exactly once
         payload = zlib.decompress(data.split(b'zlib.\n', 1)[1]).decode('utf-8')
         names = [l.split(' py:')[0] for l in payload.splitlines()]
@@ -117,6 +120,35 @@ def check_roundtrip(case: Dict[str, Any]) -> Tuple[List[Tuple[str, str]], Dict[s
             seen.add(sig)
             res.append((sig, msg))
     return res, info
+
+
+def _check_locations(outdir: str, got: Dict[str, Optional[str]]) -> List[Tuple[str, str]]:
+    from ..oracle import crawl
+    pages = crawl.read_dir(outdir)
+    out: List[Tuple[str, str]] = []
+    page_of: Dict[str, str] = {}
+    for name, uri in sorted(got.items()):
+        if not uri or not uri.startswith(BASE + '/'):
+            continue
+        rel = uri[len(BASE) + 1:]
+        page, _, frag = rel.partition('#')
+        from urllib.parse import unquote
+        pg = pages.get(unquote(page))
+        if pg is None or pg.dom is None:
+            out.append(('entry-points-nowhere', 'inventory entry %s -> %s: no such page was written' % (name, rel)))
+            continue
+        if frag:
+            if unquote(frag) not in pg.anchors or name not in pg.anchors:
+                out.append(('entry-anchor-missing', 'inventory entry %s -> %s: the page has %s' % (
+                    name, rel, 'no anchor %r' % frag if unquote(frag) not in pg.anchors else 'the anchor, but not for this object (no anchor %r)' % name)))
+        else:
+            titles = [crawl._text(t).strip() for t in pg.dom.getElementsByTagName('title')]
+            if titles[:1] != [name]:
+                out.append(('entry-wrong-page', 'inventory entry %s -> %s: that page documents %s' % (name, rel, titles[:1])))
+            if page in page_of:
+                out.append(('entry-wrong-page', 'inventory entries %s and %s are both mapped to the page %s' % (page_of[page], name, page)))
+            page_of[page] = name
+    return out
 
 
 def _reachable(o: Any) -> bool:
@@ -307,7 +339,12 @@ def work(item: Dict[str, Any]) -> Acc:
                      sample={'files': {k: trunc(v, 120) for k, v in c['files'].items()}, 'args': c['args'], 'info': info},
                      classes=['roundtrip', 'with-invisible' if info['invisible'] else 'all-visible'] + (['with-superseded-duplicate'] if info.get('has_dup_names') else []))
             judge(ID, acc, dict(c, kind='roundtrip'), d)
-        hyp_run(acc, st_tree(clean=True), body, item['n'], item['seed'], shrink=True)
+        from hypothesis import strategies as st
+        from ..gen import linkproj
+        # grammar-generated trees and the link-rich projects (re-exports, superseded duplicates, hidden/private rules, objects named
+        # like the root, a __main__ module, names that differ only by case)
+        hyp_run(acc, st.one_of(st_tree(clean=True), linkproj.projects().map(lambda p: {'files': p['files'], 'roots': p['roots'], 'args': p['args']})),
+                body, item['n'], item['seed'], shrink=True)
     elif item['kind'] == 'robust':
         def body2(c):
             acc.case(key=c['hex'], nontrivial=(c['damaged'] >= 1 and len(c['intact']) >= 1) or c['container'] not in ('ok',),
